@@ -19,6 +19,9 @@ func init() {
 			ruleC12D2(r)
 			ruleC12D3(r)
 			ruleErrorsChecked(r, "D4", "/encoding/convert", 50)
+			if pk := r.P.ByPath[modPath+"/encoding/convert"]; pk != nil {
+				ruleC11M2(r, pk) // registered as M2: decoder literals are complete and zero literals are acceptable to the decoder itself
+			}
 			le := newLockEngine(r.P)
 			ruleLockPairingFor(r, le, "D5", "the wire read path never wedges on a lock: every function of package wire that takes a lock releases it on every path (an unsolicited frame must not leave a mutex held)", func(fn *ssa.Function) bool { return fnPkgPath(fn) == modPath+"/wire" && le.Info(fn).Events > 0 }, 10)
 		},
